@@ -29,11 +29,6 @@ Definition oracle_ok (d : depth) (l : list (rgba * N)) : bool :=
   | Gray => forallb (fun kv => snd kv <? 4) l
   end.
 
-(* OSC 2 (window title) and OSC 0 (icon name and window title) both set the
-   title the command asks for; the predicate does not distinguish them *)
-Definition norm_op (o : op) : op :=
-  match o with OTitle 2 t => OTitle 0 t | _ => o end.
-
 Definition c05_check (k : c05_case) : bool * bool :=
   match k with
   | Case cp c oracle impl =>
@@ -48,7 +43,7 @@ Definition c05_check (k : c05_case) : bool * bool :=
         match impl with
         | None => false                                            (* encoding never panics *)
         | Some ib =>
-            ops_eqb (map norm_op (vt_ops ib)) (map norm_op (denote pal pal cp c)) (* means exactly the command *)
+            ops_eqb (vt_ops ib) (denote pal pal cp c) (* means exactly the command *)
             && (is_raw c || vt_complete ib)                        (* complete, self-contained *)
         end )
   | Stream cp cs oracle impl =>
@@ -62,7 +57,7 @@ Definition c05_check (k : c05_case) : bool * bool :=
         match impl with
         | None => false
         | Some ib =>
-            ops_eqb (map norm_op (vt_ops ib)) (map norm_op (flat_map (denote pal pal cp) cs)) && vt_complete ib
+            ops_eqb (vt_ops ib) (flat_map (denote pal pal cp) cs) && vt_complete ib
         end )
   end.
 
